@@ -13,6 +13,7 @@ correspondence check prints them from separate processes.
 import QbiceVerif.Lemmas.TypeIdUniverse
 import QbiceVerif.Lemmas.TypeIdFamilies
 import QbiceVerif.Lemmas.TypeIdWf
+import QbiceVerif.Lemmas.TypeIdStructTable
 
 namespace QbiceVerif.C14
 open QbiceVerif.TypeId QbiceVerif.TypeId.Gen
@@ -65,6 +66,47 @@ example : ∃ a ∈ typeUniverse, ∃ b ∈ typeUniverse, a ≠ b := by
       simp only [h1, h2, Option.some.injEq] at h
       subst h
       exact absurd rfl ((List.pairwise_cons.mp hn).1 i List.mem_cons_self)
+
+/-! ### "how generic parameters are folded in": no structural collision, for ALL type expressions -/
+
+/-- Unbounded.  Replace `from_unique_type_name`, `from_raw_parts(N,0)` and `combine` by free
+constructors (`SId`); `symId?` is the same composition of them that `typeId?` performs
+(`typeId?_eq_interp`).  Over the constructor table as extracted from the source now, two type
+expressions of ANY depth, over any constructors of the table (built-in impls: left folds
+`base.combine(T1)…`; derived types: the derive's right fold; tuples of all arities sharing one name;
+arrays with their length) have the same symbolic id only if they are the same expression.  "A
+structural collision (e.g. swapped parameters, array length folded symmetrically)" is impossible. -/
+theorem no_structural_aliasing :
+    ∀ (t1 t2 : Ty) (s : SId), symId? ctorTable t1 = some s → symId? ctorTable t2 = some s → t1 = t2 :=
+  fun t1 t2 s h1 h2 => symId_inj ctorTable_facts t1 s h1 t2 h2
+
+/-- `typeId?` is `symId?` followed by the interpretation of the free constructors as the real
+128-bit functions. -/
+theorem typeId_is_interp_of_symId : ∀ t : Ty, typeId? ctorTable t = (symId? ctorTable t).map SId.interp :=
+  typeId?_eq_interp ctorTable
+
+/-- Hence: if two DIFFERENT type expressions (any depth) ever receive the same `STABLE_TYPE_ID`, two
+different symbolic terms evaluate to the same 128 bits, i.e. `from_unique_type_name`/`combine`
+themselves collide — the only way identities can alias, and the one the finite-universe theorems
+above exclude for the universe. -/
+theorem aliasing_needs_hash_collision {t1 t2 : Ty} {i : Id}
+    (h1 : typeId? ctorTable t1 = some i) (h2 : typeId? ctorTable t2 = some i) (ne : t1 ≠ t2) :
+    ∃ s1 s2 : SId, s1 ≠ s2 ∧ s1.interp = s2.interp ∧
+      symId? ctorTable t1 = some s1 ∧ symId? ctorTable t2 = some s2 :=
+  alias_is_hash_collision ctorTable_facts h1 h2 ne
+
+/-- non-vacuity: universe members do have symbolic ids (here: the first one), and the table is not
+trivial (left-fold rows, right-fold rows and plain names all occur). -/
+example : ∀ t ∈ typeUniverse, (symId? ctorTable t).isSome := by
+  intro t ht
+  obtain ⟨i, hi, _⟩ := universe_ids_defined t ht
+  rw [typeId_is_interp_of_symId] at hi
+  cases h : symId? ctorTable t with
+  | none => simp [h] at hi
+  | some s => rfl
+example : ((ctorTable.filterMap classify).map (·.kind)).contains .L ∧
+    ((ctorTable.filterMap classify).map (·.kind)).contains .R ∧
+    ((ctorTable.filterMap classify).map (·.kind)).contains .N := by decide +kernel
 
 /-! ### "all pairs of generic instantiations that differ only in argument order or nesting" -/
 
